@@ -151,6 +151,8 @@ impl<V: Hash, S> Hash for HashableHashSet<V, S> {
                 inner_hasher.finish()
             }));
             buffer.sort_unstable();
+            // Length prefix, so that adjacent collections cannot trade elements unnoticed.
+            hasher.write_usize(buffer.len());
             for v in &*buffer {
                 hasher.write_u64(*v);
             }
@@ -366,6 +368,8 @@ impl<K: Hash, V: Hash, S> Hash for HashableHashMap<K, V, S> {
                 inner_hasher.finish()
             }));
             buffer.sort_unstable();
+            // Length prefix, so that adjacent collections cannot trade entries unnoticed.
+            state.write_usize(buffer.len());
             for hash in &*buffer {
                 state.write_u64(*hash);
             }
